@@ -87,6 +87,7 @@ type wsFactory struct {
 	dialOK   map[string]bool
 	log      func(ev string)
 	wok      func() bool
+	setupErr bool // the dial succeeds but the connection cannot be set up (its deadline calls fail)
 }
 
 var errListen = errors.New("fake: reader failed")
@@ -104,7 +105,13 @@ func (f *wsFactory) New() (ext.Conn, error) {
 	if !ok {
 		return nil, errors.New("fake: dial failed")
 	}
-	return fakes.NewExtConn(), nil
+	ec := fakes.NewExtConn()
+	f.mu.Lock()
+	if f.setupErr {
+		ec.DeadlineErr = errors.New("fake: deadline cannot be set")
+	}
+	f.mu.Unlock()
+	return ec, nil
 }
 
 func (f *wsFactory) NewSession(_ ws.Connection) *client.WSSession {
@@ -428,6 +435,7 @@ func C17(c *core.Ctx) {
 	}
 	if !fine {
 		c17SelfClosed(c)
+		c17SetupFails(c)
 	}
 	total, allEx := 0, true
 	for _, cf := range confs {
@@ -463,6 +471,56 @@ func C17(c *core.Ctx) {
 // c17SelfClosed: the session's connection closes by itself (reader error handled by the
 // default handler, or peer close); then Reconnect fails: no session may be left behind, and a
 // later Connect dials again.
+// c17SetupFails: the dial of a Reconnect (or Connect) succeeds but the new connection cannot be set up
+// (ws.NewConnection fails): it is a failed call like a failed dial -- no session is left behind, the next Connect dials.
+func c17SetupFails(c *core.Ctx) {
+	for _, first := range []string{"Reconnect", "Connect"} {
+		s := sched.New()
+		s.Release()
+		f := &wsFactory{s: s, dialOK: map[string]bool{}, log: func(string) {}, wok: func() bool { return true }}
+		cl := client.NewWS(client.WSConnectionOptions{Factory: f})
+		replay := map[string]interface{}{"scenario": "Connect; " + first + " whose dial succeeds but whose connection set-up fails; Connect"}
+		if first == "Reconnect" {
+			if err := cl.Connect(); err != nil {
+				c.Violation("judge-go", "c17-setup", "Connect failed: "+err.Error(), replay)
+				continue
+			}
+		}
+		f.mu.Lock()
+		f.setupErr = true
+		f.mu.Unlock()
+		var err error
+		if first == "Reconnect" {
+			err = cl.Reconnect()
+		} else {
+			err = cl.Connect()
+		}
+		c.Eval()
+		c.Hist("connection set-up fails after a successful dial (" + first + ")")
+		if err == nil {
+			c.Violation("judge-go", "c17-setup", first+" returned nil although the connection could not be set up", replay)
+		}
+		if ses := cl.Session(); ses != nil {
+			c.Violation("judge-go", "c17-failed-reconnect-session", "a failed "+first+" (set-up failure after a successful dial) left a session behind", replay)
+		}
+		if err := cl.SendRaw([]byte{1}); err == nil {
+			c.Violation("judge-go", "c17-setup", "SendRaw succeeded without a live session", replay)
+		}
+		f.mu.Lock()
+		f.setupErr = false
+		f.mu.Unlock()
+		if err := cl.Connect(); err != nil {
+			c.Violation("judge-go", "c17-failed-reconnect-session", "Connect after a failed "+first+": "+err.Error(), replay)
+		}
+		_ = cl.Disconnect()
+		f.mu.Lock()
+		for _, x := range f.sessions {
+			_ = x.Close()
+		}
+		f.mu.Unlock()
+	}
+}
+
 func c17SelfClosed(c *core.Ctx) {
 	for _, withErr := range []bool{true, false} {
 		s := sched.New()
